@@ -107,6 +107,8 @@ class Ctx:
         self.FC = FileComparison
         self.query_log = []   # (query, path, answer) for the view slice
         self.contract = []    # C10 predicates that failed right after a build_file call
+        self.mutate = False      # C11: mutate every value that crossed the API after use
+        self.returned = []       # objects returned by functions, to be mutated once the library has them
         self.call_stack = []     # DSL calls in progress: ['bf', rel] / ['sb', name, args_wire, kwargs_wire]
         self.fault_call = None   # the call stack at the moment an injected fault fired
         self.started_targets = {}  # targets whose function was entered (so a file there is ours to remove)
@@ -184,6 +186,35 @@ def _jsonable(v):
         return False
 
 
+def scramble(v, depth=0):
+    """in-place mutation of every mutable container reachable from v (what careless user code does)"""
+    if depth > 20:
+        return
+    if isinstance(v, list):
+        for x in v:
+            scramble(x, depth + 1)
+        v.append('MUTATED')
+        if len(v) > 2:
+            del v[0]
+    elif isinstance(v, dict):
+        for x in list(v.values()):
+            scramble(x, depth + 1)
+        v['MUTATED'] = [1]
+    elif isinstance(v, tuple):
+        for x in v:
+            scramble(x, depth + 1)
+
+
+def after_call(ctx, r, call_args):
+    """edge: the value returned by build_file / subbuild (fresh or served from the cache)"""
+    if not ctx.mutate:
+        return r
+    import copy
+    mine = copy.deepcopy(r)
+    scramble(r)
+    return mine
+
+
 def fault_cls(ctx, e, depth):
     """class name of a caught exception; an OSError caused by an injected fault is just 'OSError'
     (which subclass wraps it is not specified)"""
@@ -198,13 +229,19 @@ def run_func(ctx, idx, b, target, arg, kw, is_root=False):
         ctx.inv.append([f['name'], ctx.rel(target) if target is not None else None,
                         wire.enc([arg]), wire.enc(kw)])
     acc = [['v', canon(arg)], ['v', canon(kw)], ['v', canon(ctx.versions.get(f['name']))]]
+    if ctx.mutate and not is_root:
+        scramble(arg); scramble(kw)          # edge: arguments handed to the function
     exec_stmts(ctx, f['stmts'], b, target, acc)
     r = f['ret']
     if r == 'acc':
-        return acc
-    if r == 'nonjson':
+        out = acc
+    elif r == 'nonjson':
         return wire.Other()
-    return dec_pyval(r['const'])
+    else:
+        out = dec_pyval(r['const'])
+    if ctx.mutate and not is_root:
+        ctx.returned.append(out)             # edge: the function keeps a reference to what it returned
+    return out
 
 
 def dec_pyval(j):
@@ -248,7 +285,12 @@ def exec_stmts(ctx, stmts, b, target, acc):
             _, kind, rel, extra = st
             try:
                 a = do_query(ctx, b, kind, rel, extra)
-                acc.append(['v', a])
+                if ctx.mutate:
+                    import copy
+                    acc.append(['v', copy.deepcopy(a)])
+                    scramble(a)              # edge: query result handed out
+                else:
+                    acc.append(['v', a])
             except OSError as e:
                 acc.append(['e', type(e).__name__])
             ctx.query_log.append([kind, rel, extra, acc[-1]])
@@ -269,15 +311,21 @@ def exec_stmts(ctx, stmts, b, target, acc):
             ctx.call_stack.append(['bf', rel])
             depth = len(ctx.call_stack)
             try:
+                call_args = [dec_pyval(arg), dec_pyval(kw)]
                 try:
                     r = b.build_file_with_comparison(
-                        tgt, ctx.cmp(cmp_), name, body, dec_pyval(arg), **dec_pyval(kw))
+                        tgt, ctx.cmp(cmp_), name, body, call_args[0], **call_args[1])
                 finally:
                     del ctx.call_stack[depth - 1:]
+                    if ctx.mutate:
+                        scramble(call_args)  # edge: the caller's own argument objects
+                        for o in ctx.returned:
+                            scramble(o)
+                        del ctx.returned[:]
                 # C10: on return the target is a regular file and all parents are directories
                 if not os.path.isfile(tgt) or not os.path.isdir(os.path.dirname(tgt)):
                     ctx.contract.append(['returned-without-file', rel])
-                acc.append(['v', r])
+                acc.append(['v', after_call(ctx, r, call_args)])
             except Exception as e:
                 # C10: after a failure of the function the target does not exist
                 st_ = getattr(e, '_fbh_phase', None)
@@ -296,11 +344,17 @@ def exec_stmts(ctx, stmts, b, target, acc):
                                    wire.enc(dec_pyval(kw))])
             depth = len(ctx.call_stack)
             try:
+                call_args = [dec_pyval(arg), dec_pyval(kw)]
                 try:
-                    r = b.subbuild(name, body, dec_pyval(arg), **dec_pyval(kw))
+                    r = b.subbuild(name, body, call_args[0], **call_args[1])
                 finally:
                     del ctx.call_stack[depth - 1:]
-                acc.append(['v', r])
+                    if ctx.mutate:
+                        scramble(call_args)
+                        for o in ctx.returned:
+                            scramble(o)
+                        del ctx.returned[:]
+                acc.append(['v', after_call(ctx, r, call_args)])
             except Exception as e:
                 if not catch:
                     raise
